@@ -188,6 +188,7 @@ type World struct {
 	RunErr     error
 	EarlyViol  *Violation
 	ProbeReplies int
+	TickUnread []map[int]bool // per TICK: Seq of commands whose reply the proxy had not completely read yet
 	Topo       []NodeSpec // current topology as last injected (nil: Sc.Nodes)
 }
 
@@ -635,6 +636,16 @@ func (w *World) wait() (fd int, mask uint32, n int, stop bool) {
 			}
 			continue
 		case evTick:
+			// remember which backend replies the proxy had not read when the clock jumped
+			unread := map[int]bool{}
+			for _, bc := range w.BConns {
+				for i, rec := range bc.Log {
+					if !bc.ReadByProxy(i) {
+						unread[rec.Seq] = true
+					}
+				}
+			}
+			w.TickUnread = append(w.TickUnread, unread)
 			vsys.Advance(w.Sc.Ticks[w.Ticks])
 			w.Ticks++
 			return 0, 0, 0, false
@@ -962,6 +973,16 @@ func (w *World) Fingerprint() string {
 	}
 	fmt.Fprintf(&sb, "p=%v l=%v h=%v", w.Panic != nil, w.Livelock, w.HorizonHit)
 	return sb.String()
+}
+
+// FaultsDone: every scripted fault has been injected.
+func (w *World) FaultsDone() bool {
+	for _, u := range w.faultUsed {
+		if !u {
+			return false
+		}
+	}
+	return true
 }
 
 // ReadByProxy: the reply to the i-th command on this connection has been completely read by the proxy.
